@@ -210,6 +210,71 @@ pub fn run(tier: Tier, seed: u64) -> i32 {
             }
         }
     });
+    // wide tests (up to 130 columns): everything fits; one column unknown; one signal duplicated;
+    // a C in an output column; a read of a name that is not an output
+    let mut st = st;
+    {
+        let widths = [31usize, 32, 33, 63, 64, 65, 66, 70, 130];
+        let variants = 5u64;
+        let w = par_range("wide tests: {31,32,33,63,64,65,66,70,130} columns x {fits, unknown column at i, duplicated signal, C in an output column i, read of an input} x every position i", widths.iter().map(|n| *n as u64).sum::<u64>() * variants, &deadline, |u, st| {
+            let variant = u % variants;
+            let mut rest = u / variants;
+            let mut n = 0;
+            for wd in widths {
+                if rest < wd as u64 {
+                    n = wd;
+                    break;
+                }
+                rest -= wd as u64;
+            }
+            let pos = rest as usize;
+            // signals: even positions inputs, odd positions outputs
+            let mut sigs: Vec<Sig> = (0..n).map(|i| if i % 2 == 0 { Sig::inp(&format!("S{i}"), 4, 0) } else { Sig::out(&format!("S{i}"), 4) }).collect();
+            let mut header: Vec<String> = (0..n).map(|i| format!("S{i}")).collect();
+            let mut row: Vec<Entry> = (0..n).map(|i| if i % 2 == 0 { l((i % 16) as i64) } else { Entry::X }).collect();
+            match variant {
+                0 => {}
+                1 => header[pos] = "nosuch".into(),
+                2 => {
+                    let other = (pos + 2) % n;
+                    sigs[pos].name = sigs[other].name.clone();
+                    header[pos] = format!("S{pos}");
+                }
+                3 => row[pos] = Entry::C,
+                _ => row[pos] = if pos % 2 == 0 { Entry::Paren(name(&format!("S{}", (pos + 1) % n))) } else { Entry::Paren(name(&format!("S{}", (pos + 1) % n))) },
+            }
+            let prog = Program { header, body: vec![Stmt::Row(row.clone()), Stmt::Row(row)] };
+            let text = text(&prog);
+            st.evals += 1;
+            st.nontrivial += 1;
+            st.witness("wide_test");
+            let want = bind_judgement(&prog, &sigs);
+            let got = load(&text, &sigs, DEFAULT_BUDGET);
+            let describe = |g: &str| format!("{n} columns, variant {variant} at position {pos}\nreference judgement: {want:?}\nwith_signals: {g}\nprogram:\n{}", text.chars().take(400).collect::<String>());
+            let replay = |obs: String| json!({"kind": "bind", "text": text, "signals": sigs_json(&sigs), "expected": [format!("{:?}", want.as_ref().map(|_| "accepted"))], "observed": [obs]});
+            match (&want, &got) {
+                (Ok(()), Ok(tc)) => {
+                    let answer: Answer = sigs.iter().filter(|s| s.is_out()).map(|s| (s.name.clone(), V::Num(1))).collect();
+                    let script = vec![Step::Ans(answer)];
+                    let mut opts = RunOpts::new(24);
+                    opts.repeat_last = true;
+                    let obs = run_loaded(tc, &sigs, true, &script, &opts);
+                    if obs.init != ObsInit::Ok || obs.items.iter().any(|i| !matches!(i, ObsItem::Row(_) | ObsItem::End)) {
+                        let b = crate::compare::obs_items_brief(&obs).join(" / ");
+                        st.violation("accepted wide test cannot be iterated", u, describe(&format!("Ok, but iterating gives {}", b.chars().take(300).collect::<String>())), || dyn_replay(&text, &sigs, true, &script, &opts, vec!["rows until the end".into()], &obs, "not iterable"));
+                    }
+                }
+                (Ok(()), Err(ObsInit::BindErr(e))) => st.violation("fitting wide test rejected", u, describe(&format!("Err({e})")), || replay("rejected".into())),
+                (Err(_), Err(ObsInit::BindErr(_))) => {}
+                (Err(why), Ok(_)) => st.violation(&format!("misfit accepted ({why:?})"), u, describe("Ok"), || replay("accepted".into())),
+                (_, Err(o)) => {
+                    let d = format!("{o:?}");
+                    st.violation(if d.contains("Panic") { "with_signals panics" } else { "wide test does not load" }, u, describe(&d), || replay(d.clone()));
+                }
+            }
+        });
+        st.merge(w);
+    }
     let meta = CheckMeta {
         id: "C11",
         tier,
@@ -219,7 +284,7 @@ pub fn run(tier: Tier, seed: u64) -> i32 {
             "independent judgement refsem::bind_judgement (four clauses of the property with the static scoping rule of DESIGN section 3.3)".into(),
             "programs contain nothing that can fail at run time for reasons other than binding (no arithmetic faults, no variable assigned only in an unexecuted while body)".into(),
         ],
-        required_witnesses: vec!["accepted_and_iterated", "rejected_duplicate_signal", "rejected_signal_is_virtual", "rejected_unknown_header_column", "rejected_clock_column_not_an_input", "rejected_read_of_non_output"],
+        required_witnesses: vec!["accepted_and_iterated", "rejected_duplicate_signal", "rejected_signal_is_virtual", "rejected_unknown_header_column", "rejected_clock_column_not_an_input", "rejected_read_of_non_output", "wide_test"],
         exhaustive_note: "all signal lists x headers x menu programs within the bounds".into(),
         e1: false,
     };
